@@ -95,7 +95,7 @@ bool ASTInterpreter::NameCollector::ViImperative(Cursor iter) {
     switch (child->id) {
       case TokenID::ITERATE:
       case TokenID::ASSIGN: {
-        const auto varID = *begin(parent.nodeVars[iter.Child(0).get()]);
+        const auto varID = *begin(parent.nodeVars[child.Child(0).get()]);
         vars.erase(std::remove(begin(vars), end(vars), varID), end(vars));
         break;
       }
